@@ -11,11 +11,22 @@
 // it ran with; RAII of the context guard is assumed in the contract of Env::push_context (Verus does not model
 // destructors): while the guard lives the context is on top; when it goes away the topmost context has been popped and
 // the rest is as the guard left it.  Await points are dropped.
+//
+// Added: the two executors execute_function (function.rs) and execute_external_utility (external.rs).  C09 "the
+// redirections of a command affect only that command": they are performed first, under a RedirGuard (RAII ASSUMED in the
+// contract of RedirGuard::new: when the guard goes away the redirections in effect are those of before), a failed
+// redirection is handled and nothing else happens; C16: the assignments are made, exported, in a VOLATILE context on top
+// of the caller's contexts with the redirections in effect, and that context is gone afterwards; C02: the function body /
+// the utility runs exactly once, after both, and only if both succeeded.
 // ---------------------------------------------------------------------------
+pub assume_specification<B, C>[ <ControlFlow<B, C> as core::ops::Try>::branch ](cf: ControlFlow<B, C>) -> (r: ControlFlow<<ControlFlow<B, C> as core::ops::Try>::Residual, <ControlFlow<B, C> as core::ops::Try>::Output>)
+    ensures match cf { ControlFlow::Continue(c) => r == ControlFlow::<ControlFlow<B, core::convert::Infallible>, C>::Continue(c), ControlFlow::Break(b) => r == ControlFlow::<ControlFlow<B, core::convert::Infallible>, C>::Break(ControlFlow::Break(b)) };
+pub assume_specification<B, C>[ <ControlFlow<B, C> as core::ops::FromResidual<ControlFlow<B, core::convert::Infallible>>>::from_residual ](res: ControlFlow<B, core::convert::Infallible>) -> (r: ControlFlow<B, C>)
+    ensures res matches ControlFlow::Break(b) ==> r == ControlFlow::<B, C>::Break(b);
 pub struct ExitStatus(pub i32);
 pub enum Divert { Continue { count: usize }, Break { count: usize }, Return(Option<ExitStatus>), Interrupt(Option<ExitStatus>), Exit(Option<ExitStatus>), Abort(Option<ExitStatus>) }
 pub type Result<T = ()> = ControlFlow<Divert, T>;
-pub struct Field { pub verif_id: int }
+pub struct Field { pub value: String, pub origin: Location, pub verif_id: int }
 pub struct PositionalParams { pub verif_fields: Seq<int> }
 impl PositionalParams {
     #[verifier::external_body]
@@ -27,25 +38,47 @@ pub enum Context { Regular { positional_params: PositionalParams }, Volatile }
 pub struct Body { pub verif_id: int }
 pub struct Function<S> { pub body: Rc<Body>, pub verif_s: core::marker::PhantomData<S> }
 /// what the body ran with
-pub struct BodyRun { pub contexts: Seq<Context>, pub result: Result, pub status_after: ExitStatus }
-pub struct Env<S> { pub exit_status: ExitStatus, pub verif_contexts: Ghost<Seq<Context>>, pub verif_runs: Ghost<Seq<BodyRun>>, pub system: S }
+pub struct BodyRun { pub contexts: Seq<Context>, pub redirs: Seq<int>, pub result: Result, pub status_after: ExitStatus }
+/// one call of RedirGuard::perform_redirs: which redirections, and whether all of them succeeded
+pub struct RCall { pub ids: Seq<int>, pub ok: bool }
+/// one call of perform_assignments (simple_command.rs; unit simplecmd): what was in place when it was called
+pub struct ACall { pub contexts: Seq<Context>, pub redirs: Seq<int>, pub export: bool, pub ids: Seq<int>, pub ok: bool }
+/// one external utility started (or looked for): what was in place, what it was given
+pub struct Started { pub contexts: Seq<Context>, pub redirs: Seq<int>, pub fields: Seq<int>, pub result: Result<ExitStatus> }
+pub struct OptionSet { pub verif_opaque: u8 }
+pub struct Env<S> { pub exit_status: ExitStatus, pub options: OptionSet, pub verif_contexts: Ghost<Seq<Context>>, pub verif_runs: Ghost<Seq<BodyRun>>,
+    /// the redirections in effect (identities, in the order they were performed)
+    pub verif_redirs: Ghost<Seq<int>>,
+    pub verif_rcalls: Ghost<Seq<RCall>>, pub verif_acalls: Ghost<Seq<ACall>>, pub verif_started: Ghost<Seq<Started>>,
+    /// errors handled (reported) / "not found" reports printed
+    pub verif_handled: Ghost<nat>, pub verif_not_found: Ghost<nat>,
+    pub system: S }
+/// everything but the contexts, the redirections in effect and `$?` is the same
+pub open spec fn same_logs<S>(a: Env<S>, b: Env<S>) -> bool {
+    a.verif_runs@ == b.verif_runs@ && a.verif_rcalls@ == b.verif_rcalls@ && a.verif_acalls@ == b.verif_acalls@ && a.verif_started@ == b.verif_started@
+    && a.verif_handled@ == b.verif_handled@ && a.verif_not_found@ == b.verif_not_found@
+}
+pub open spec fn same_place<S>(a: Env<S>, b: Env<S>) -> bool { a.verif_contexts@ == b.verif_contexts@ && a.verif_redirs@ == b.verif_redirs@ }
 pub struct EnvContextGuard<'a, S> { pub env: &'a mut Env<S> }
 impl<S> Env<S> {
     /// yash-env/src/variable/guard.rs Env::push_context + the Drop impl of the guard (ASSUMED as a whole, see above)
     #[verifier::external_body]
     pub fn push_context(&mut self, context: Context) -> (g: EnvContextGuard<'_, S>)
         ensures
-            g.env.verif_contexts@ == old(self).verif_contexts@.push(context), g.env.exit_status == old(self).exit_status, g.env.verif_runs@ == old(self).verif_runs@,
+            g.env.verif_contexts@ == old(self).verif_contexts@.push(context), g.env.exit_status == old(self).exit_status,
+            same_logs(*g.env, *old(self)), g.env.verif_redirs@ == old(self).verif_redirs@,
             final(self).verif_contexts@.len() + 1 == final(g.env).verif_contexts@.len(),
             forall|i: int| 0 <= i < final(self).verif_contexts@.len() ==> #[trigger] final(self).verif_contexts@[i] == final(g.env).verif_contexts@[i],
-            final(self).exit_status == final(g.env).exit_status, final(self).verif_runs@ == final(g.env).verif_runs@
+            final(self).exit_status == final(g.env).exit_status, same_logs(*final(self), *final(g.env)), final(self).verif_redirs@ == final(g.env).verif_redirs@
     { unimplemented!() }
 }
 impl Body {
     #[verifier::external_body]
     pub fn execute<S>(&self, env: &mut Env<S>) -> (r: Result)
-        ensures final(env).verif_runs@ == old(env).verif_runs@.push(BodyRun { contexts: old(env).verif_contexts@, result: r, status_after: final(env).exit_status }),
-            final(env).verif_contexts@ == old(env).verif_contexts@
+        ensures final(env).verif_runs@ == old(env).verif_runs@.push(BodyRun { contexts: old(env).verif_contexts@, redirs: old(env).verif_redirs@, result: r, status_after: final(env).exit_status }),
+            same_place(*final(env), *old(env)),
+            final(env).verif_rcalls@ == old(env).verif_rcalls@, final(env).verif_acalls@ == old(env).verif_acalls@, final(env).verif_started@ == old(env).verif_started@,
+            final(env).verif_handled@ == old(env).verif_handled@, final(env).verif_not_found@ == old(env).verif_not_found@
     { unimplemented!() }
 }
 /// the hook some callers pass to prepare the environment (a function pointer returning a boxed future in the code)
@@ -53,6 +86,101 @@ pub struct EnvPrepHook<S> { pub verif_s: core::marker::PhantomData<S> }
 impl<S> EnvPrepHook<S> {
     #[verifier::external_body]
     pub fn call(&self, env: &mut Env<S>)
-        ensures final(env).verif_contexts@ == old(env).verif_contexts@, final(env).verif_runs@ == old(env).verif_runs@
+        ensures same_place(*final(env), *old(env)), same_logs(*final(env), *old(env))
     { unimplemented!() }
 }
+// ---- the executors' surroundings ----
+pub trait Runtime {}
+pub struct Redir { pub verif_id: int }
+pub struct Assign { pub verif_id: int }
+pub struct XTrace { pub verif_opaque: u8 }
+pub struct RedirError { pub verif_opaque: u8 }
+pub struct CString { pub verif_opaque: u8 }
+pub open spec fn redir_ids(s: Seq<Redir>) -> Seq<int> { Seq::new(s.len(), |i: int| s[i].verif_id) }
+pub open spec fn assign_ids(s: Seq<Assign>) -> Seq<int> { Seq::new(s.len(), |i: int| s[i].verif_id) }
+pub open spec fn field_ids(s: Seq<Field>) -> Seq<int> { Seq::new(s.len(), |i: int| s[i].verif_id) }
+impl XTrace {
+    #[verifier::external_body]
+    pub fn from_options(options: &OptionSet) -> (r: Option<XTrace>) { unimplemented!() }
+}
+#[verifier::external_body]
+pub fn verif_as_mut(x: &mut Option<XTrace>) -> (r: Option<&mut XTrace>) { x.as_mut() }
+#[verifier::external_body]
+pub fn trace_fields(xtrace: Option<&mut XTrace>, fields: &Vec<Field>) { unimplemented!() }
+#[verifier::external_body]
+pub fn print<S>(env: &mut Env<S>, xtrace: Option<XTrace>)
+    ensures same_place(*final(env), *old(env)), same_logs(*final(env), *old(env)), final(env).exit_status == old(env).exit_status
+{ unimplemented!() }
+pub struct RedirGuard<'e, S> { pub env: &'e mut Env<S> }
+impl<'e, S> RedirGuard<'e, S> {
+    /// yash-semantics/src/redir.rs RedirGuard::new + its Drop impl (unit redir verifies both bodies against the descriptor
+    /// table; here RAII is ASSUMED as a whole): when the guard goes away the redirections in effect are those of before
+    #[verifier::external_body]
+    pub fn new(env: &'e mut Env<S>) -> (g: RedirGuard<'e, S>)
+        ensures
+            same_place(*g.env, *old(env)), same_logs(*g.env, *old(env)), g.env.exit_status == old(env).exit_status,
+            final(env).verif_redirs@ == old(env).verif_redirs@,
+            final(env).verif_contexts@ == final(g.env).verif_contexts@, final(env).exit_status == final(g.env).exit_status,
+            same_logs(*final(env), *final(g.env))
+    { unimplemented!() }
+    /// RedirGuard::perform_redirs: all the redirections in order, stopping at the first failure (the ones performed stay
+    /// in effect until the guard goes away)
+    #[verifier::external_body]
+    pub fn perform_redirs(&mut self, redirs: &[Redir], xtrace: Option<&mut XTrace>) -> (r: std::result::Result<Option<ExitStatus>, RedirError>)
+        ensures
+            // the guard goes on holding the reference it was made with
+            mut_ref_future(final(self).env) == mut_ref_future(old(self).env),
+            final(self).env.verif_rcalls@ == old(self).env.verif_rcalls@.push(RCall { ids: redir_ids(redirs@), ok: r is Ok }),
+            r is Ok ==> final(self).env.verif_redirs@ == old(self).env.verif_redirs@ + redir_ids(redirs@),
+            final(self).env.verif_contexts@ == old(self).env.verif_contexts@,
+            final(self).env.verif_runs@ == old(self).env.verif_runs@, final(self).env.verif_acalls@ == old(self).env.verif_acalls@,
+            final(self).env.verif_started@ == old(self).env.verif_started@, final(self).env.verif_handled@ == old(self).env.verif_handled@,
+            final(self).env.verif_not_found@ == old(self).env.verif_not_found@
+    { unimplemented!() }
+}
+impl RedirError {
+    /// handle.rs (unit errhandle): reports, sets `$?`, lets the caller go on
+    #[verifier::external_body]
+    pub fn handle<S>(&self, env: &mut Env<S>) -> (r: Result)
+        ensures same_place(*final(env), *old(env)), final(env).verif_handled@ == old(env).verif_handled@ + 1,
+            final(env).verif_runs@ == old(env).verif_runs@, final(env).verif_rcalls@ == old(env).verif_rcalls@, final(env).verif_acalls@ == old(env).verif_acalls@,
+            final(env).verif_started@ == old(env).verif_started@, final(env).verif_not_found@ == old(env).verif_not_found@
+    { unimplemented!() }
+}
+/// simple_command.rs perform_assignments (unit simplecmd): opaque here, what was in place is recorded
+#[verifier::external_body]
+pub fn perform_assignments<S>(env: &mut Env<S>, assigns: &[Assign], export: bool, xtrace: Option<&mut XTrace>) -> (r: Result<Option<ExitStatus>>)
+    ensures same_place(*final(env), *old(env)),
+        final(env).verif_acalls@ == old(env).verif_acalls@.push(ACall { contexts: old(env).verif_contexts@, redirs: old(env).verif_redirs@, export, ids: assign_ids(assigns@), ok: r is Continue }),
+        final(env).verif_runs@ == old(env).verif_runs@, final(env).verif_rcalls@ == old(env).verif_rcalls@,
+        final(env).verif_started@ == old(env).verif_started@, final(env).verif_handled@ == old(env).verif_handled@, final(env).verif_not_found@ == old(env).verif_not_found@
+{ unimplemented!() }
+
+// ---- external.rs ----
+#[verifier::external_body]
+pub fn verif_has_slash(s: &String) -> (r: bool) { s.contains('/') }
+#[verifier::external_body]
+pub fn verif_cstring(s: &String) -> (r: Option<CString>) { unimplemented!() }
+/// crate::command::search::search_path: a look-up, nothing of the monitor changes
+#[verifier::external_body]
+pub fn search_path<S>(env: &mut Env<S>, name: &String) -> (r: Option<CString>)
+    ensures *final(env) == *old(env)
+{ unimplemented!() }
+/// external.rs start_external_utility_in_subshell_and_wait: opaque; what was in place and what it got is recorded
+#[verifier::external_body]
+pub fn start_external_utility_in_subshell_and_wait<S>(env: &mut Env<S>, path: CString, fields: Vec<Field>) -> (r: Result<ExitStatus>)
+    ensures same_place(*final(env), *old(env)), final(env).exit_status == old(env).exit_status,
+        final(env).verif_started@ == old(env).verif_started@.push(Started { contexts: old(env).verif_contexts@, redirs: old(env).verif_redirs@, fields: field_ids(fields@), result: r }),
+        final(env).verif_runs@ == old(env).verif_runs@, final(env).verif_rcalls@ == old(env).verif_rcalls@, final(env).verif_acalls@ == old(env).verif_acalls@,
+        final(env).verif_handled@ == old(env).verif_handled@, final(env).verif_not_found@ == old(env).verif_not_found@
+{ unimplemented!() }
+pub struct Location { pub verif_opaque: u8 }
+pub struct Message { pub verif_opaque: u8 }
+#[verifier::external_body]
+pub fn verif_msg(s: &String) -> Message { unimplemented!() }
+#[verifier::external_body]
+pub fn print_error<S>(env: &mut Env<S>, title: Message, annotation: Message, location: &Location)
+    ensures same_place(*final(env), *old(env)), final(env).exit_status == old(env).exit_status, final(env).verif_not_found@ == old(env).verif_not_found@ + 1,
+        final(env).verif_runs@ == old(env).verif_runs@, final(env).verif_rcalls@ == old(env).verif_rcalls@, final(env).verif_acalls@ == old(env).verif_acalls@,
+        final(env).verif_started@ == old(env).verif_started@, final(env).verif_handled@ == old(env).verif_handled@
+{ unimplemented!() }
